@@ -128,6 +128,8 @@ def shard(shard_no, nshards, seed, tier, extra):
         r = rng.random()
         if r < 0.03:
             code, feats = progs.full_stack(rng)
+        elif r < 0.06:
+            code, feats = progs.error_storm(rng)
         elif r < 0.12:
             code, feats = progs.shared_fault(rng)
         elif r < 0.6:
